@@ -202,6 +202,11 @@ def run(rep, tier, seed, parts=None):
         "the C driver links the repo's specpart.c directly; the python-level part covers specpart_wrap.c",
     ]
     rep.extra["alphabet"] = list(gen.alphabet(seed, 4))
+    # vacuity guard: alphabet values on a level-rounding boundary turn whole products into don't-care ties
+    ties = gen.level_ties(gen.alphabet(seed, 4), IHMAX)
+    rep.extra["alphabet_level_ties(lo,mid,hi,ihmax)"] = [list(t) for t in ties]
+    if len(set(t[3] for t in ties)) > 1:
+        raise RuntimeError("alphabet %r puts values on level boundaries for several level counts: %r" % (gen.alphabet(seed, 4), ties))
     js = jobs(tier, seed) if (parts is None or "c" in parts) else []
     pj = []
     if parts is None or "py" in parts:
